@@ -79,7 +79,7 @@ impl Property for C15 {
          oracle = exact negation / brute force arg-best over the sample table; non-trivial = >=3 samples with mixed feasibility and relaxed set != unrelaxed set, or a maximisation instance; distinct = sha256(case)"
     }
     fn required_labels(&self) -> Vec<String> {
-        ["mode=minimization", "mode=evaluated-samples", "mode=handbuilt", "tie", "maximize", "legacy-1.6", "new-style", "none-feasible", "relaxed!=unrelaxed", "mixed-feasibility", "objectives-one-ulp-apart", "infinite-objective", "many-samples-sharing-values-in-scrambled-id-order"].iter().map(|s| s.to_string()).collect()
+        ["mode=minimization", "mode=evaluated-samples", "mode=handbuilt", "tie", "maximize", "legacy-1.6", "new-style", "none-feasible", "relaxed!=unrelaxed", "mixed-feasibility", "objectives-one-ulp-apart", "infinite-objective", "many-samples-sharing-values-in-scrambled-id-order", "fixed-variable-with-an-empty-sample-table", "fixed-variable-with-a-partial-sample-table"].iter().map(|s| s.to_string()).collect()
     }
     fn cases(&self, tier: Tier) -> usize {
         match tier {
@@ -354,6 +354,45 @@ impl Property for C15 {
                     ss.feasible_relaxed = rel.iter().map(|(k, v)| (*k, *v)).collect();
                     ss.feasible = all.iter().map(|(k, v)| (*k, *v)).collect();
                 }
+                // decision variables of the set: one sampled normally, and one FIXED variable (recorded value) whose optional
+                // per-sample table is absent / present but empty / present but listing only some of the samples
+                {
+                    let mut free = v1::SampledDecisionVariable::default();
+                    let mut dv = v1::DecisionVariable::default();
+                    dv.id = 1;
+                    dv.kind = KIND_CONTINUOUS;
+                    free.decision_variable = Some(dv);
+                    let mut sv = v1::SampledValues::default();
+                    let mut e = v1::sampled_values::SampledValuesEntry::default();
+                    e.value = 0.5;
+                    e.ids = pairs.iter().map(|p| p.0).collect();
+                    sv.entries.push(e);
+                    free.samples = Some(sv);
+                    ss.decision_variables.push(free);
+                    let mut fixed = v1::SampledDecisionVariable::default();
+                    let mut dv = v1::DecisionVariable::default();
+                    dv.id = 2;
+                    dv.kind = KIND_CONTINUOUS;
+                    dv.substituted_value = Some(1.25);
+                    fixed.decision_variable = Some(dv);
+                    match many_seed % 3 {
+                        0 => {}
+                        1 => {
+                            fixed.samples = Some(v1::SampledValues::default());
+                            ctx.label("fixed-variable-with-an-empty-sample-table");
+                        }
+                        _ => {
+                            let mut sv = v1::SampledValues::default();
+                            let mut e = v1::sampled_values::SampledValuesEntry::default();
+                            e.value = 1.25;
+                            e.ids = pairs.iter().map(|p| p.0).take(pairs.len() / 2).collect();
+                            sv.entries.push(e);
+                            fixed.samples = Some(sv);
+                            ctx.label("fixed-variable-with-a-partial-sample-table");
+                        }
+                    }
+                    ss.decision_variables.push(fixed);
+                }
                 // through bytes, as another release would have written them
                 let bytes = ss.encode_to_vec();
                 let ss = match v1::SampleSet::decode(bytes.as_slice()) {
@@ -391,6 +430,10 @@ impl Property for C15 {
                 let sol = if unrelaxed { ss.best_feasible_unrelaxed() } else { ss.best_feasible() };
                 match (chosen, sol) {
                     (Ok(id), Ok(sol)) => {
+                        let stv = sol.state.as_ref().map(|s| (s.entries.get(&1).copied(), s.entries.get(&2).copied()));
+                        if stv != Some((Some(0.5), Some(1.25))) {
+                            return fail("C15/handbuilt/solution-state", format!("the returned solution reports (x1, x2) = {stv:?}, the set says x1 = 0.5 for every sample and x2 is fixed at 1.25: {}", what()));
+                        }
                         if sol.objective != table[&id].0 {
                             return fail("C15/handbuilt/solution-objective", format!("returned solution has objective {} but sample {id} has {}: {}", sol.objective, table[&id].0, what()));
                         }
